@@ -3,6 +3,12 @@ import Driver.Expose
 import Driver.Ports
 import Driver.Outline
 import Driver.Comms
+import Driver.Fault
+import Driver.Savable
+import Driver.Futures
+import Driver.Launcher
+import Driver.PortsOut
+import Driver.Persister
 
 /-- `pmodel <component>`: line-protocol driver over the executable model definitions. -/
 def main (args : List String) : IO UInt32 := do
@@ -12,4 +18,10 @@ def main (args : List String) : IO UInt32 := do
   | ["ports"] => DrvPorts.main; return 0
   | ["outline"] => DrvOutline.main; return 0
   | ["comms"] => DrvComms.main; return 0
-  | _ => IO.eprintln "usage: pmodel <pm|expose|ports>"; return 2
+  | ["fault"] => DrvFault.main; return 0
+  | ["savable"] => DrvSavable.main; return 0
+  | ["futures"] => DrvFutures.main; return 0
+  | ["launcher"] => DrvLauncher.main; return 0
+  | ["portsout"] => DrvPortsOut.main; return 0
+  | ["persister"] => DrvPersister.main; return 0
+  | _ => IO.eprintln "usage: pmodel <comms|expose|fault|futures|launcher|outline|persister|pm|ports|portsout|savable>"; return 2
